@@ -104,3 +104,285 @@ Proof.
   cbn [find_member]. destruct H as [->|H]; [now rewrite str_eqb_refl|].
   destruct (str_eqb (m_id mm) (m_id x)) eqn:E; [|now apply IH]. apply str_eqb_eq in E. exfalso. apply Hx. rewrite <- E. apply in_map_iff. now exists mm.
 Qed.
+
+Lemma lists_all_empty : forall (a : asg), (forall m l, In (m, l) a -> l = []) -> lists a = [].
+Proof.
+  induction a as [|[k v] a IH]; intro H; [reflexivity|]. rewrite lists_cons. rewrite (H k v (or_introl eq_refl)). simpl.
+  apply IH. intros m l Hl. apply (H m l). now right.
+Qed.
+
+Lemma rr_seq_perm : forall a out, rr_seq a out -> NoDup (akeys a) -> Permutation out (lists a).
+Proof.
+  intros a out H. induction H as [a He | a c l0 x r Hc Hx Hmax HR IH]; intro N.
+  - now rewrite (lists_all_empty a He).
+  - rewrite (lists_split c a N), (entry_ca_get c l0 a N Hc).
+    rewrite (remove_first_perm tp_eqb tp_spec x l0 Hx) at 1. simpl. constructor.
+    rewrite IH by now apply (aset_NoDup str_eqb str_spec). now rewrite (lists_aset_split c _ a N).
+Qed.
+
+Lemma ca_get_filter_assigned : forall (ca : asg) (p2c : p2c_t) m,
+  ca_get (filter_assigned ca p2c) m = filter (fun p => match aget tp_eqb p p2c with Some _ => true | None => false end) (ca_get ca m).
+Proof.
+  intros ca p2c m. unfold ca_get, filter_assigned. induction ca as [|[k v] ca IH]; [reflexivity|]. cbn [map aget fst snd].
+  destruct (str_eqb m k); [reflexivity | exact IH].
+Qed.
+
+(* ---- the theorem ---- *)
+Theorem sticky_join_no_shuffle : forall fuel o ms ts p g newm p',
+  wf_members (newm :: ms) -> wf_topics ts -> identical_subscriptions (newm :: ms) ->
+  (forall mm, In mm (newm :: ms) -> NoDup (m_topics mm)) ->
+  (forall t ps, In (t, ps) ts -> In t (m_topics newm)) ->
+  valid_plan ms ts p -> kafka_balanced ms p ->
+  sticky_plan fuel true o (map (report p g) (newm :: ms)) ts = SOk p' ->
+  forall m x, In x (holds p m) -> In x (holds p' m) \/ In x (holds p' (m_id newm)).
+Proof.
+  intros fuel o ms ts p g newm p' Wc Wt Hid Hnd Htop V KB E m x Hx.
+  destruct fuel as [|fuel]; [exfalso; eapply sticky_plan_fuel0; eassumption|].
+  set (cur := newm :: ms) in *. set (N := m_id newm) in *. set (ms' := map (report p g) cur) in *.
+  assert (Wm' : wf_members ms') by (unfold wf_members, ms'; now rewrite report_ids).
+  assert (Hids : map m_id ms' = map m_id cur) by apply report_ids.
+  assert (Wms : wf_members ms) by (unfold wf_members in *; simpl in Wc; now inversion Wc).
+  assert (NNo : ~ In N (map m_id ms)) by (unfold wf_members in Wc; simpl in Wc; now inversion Wc).
+  pose proof V as [V1 V2 V3 V4 V5 V6].
+  assert (HallT : forall mm t ps, In mm cur -> In (t, ps) ts -> In t (m_topics mm)).
+  { intros mm t ps Hm Ht. apply (Hid newm mm t (or_introl eq_refl) Hm). eapply Htop; eassumption. }
+  assert (PotAll : forall a y, In a (map m_id cur) -> In y (all_tps ts) -> pot cur ts a y).
+  { intros a y Ha Hy. split; [assumption|]. apply in_map_iff in Ha as [ma [A1 A2]]. exists ma. split; [assumption|]. split; [assumption|].
+    apply all_tps_In in Hy as [ps [H1 _]]. eapply HallT; eassumption. }
+  assert (Hpot' : forall a y, pot ms' ts a y <-> pot cur ts a y) by (intros a y; unfold pot, ms'; now rewrite subscribes_report).
+  assert (HN0 : holds p N = []).
+  { destruct (holds p N) as [|[t q] r] eqn:Eh; [reflexivity|]. exfalso. apply NNo. apply V3.
+    assert (H : In (t, q) (holds p N)) by (rewrite Eh; now left). apply holds_In in H. eapply triples_key; eassumption. }
+  assert (Hheld : forall a y, In y (holds p a) -> In a (map m_id ms) /\ In y (all_tps ts)).
+  { intros a [t q] H. apply holds_In in H. split; [apply V3; eapply triples_key; eassumption|]. apply all_tps_In. now apply (V4 a t q). }
+  destruct (Hheld m x Hx) as [Hm Hxa].
+  assert (NmN : m <> N) by (intros ->; contradiction).
+  assert (IdsC : forall a, In a (map m_id ms) -> In a (map m_id cur)) by (intros a Ha; right; assumption).
+  (* every assignable partition is held by an old member in p *)
+  assert (Held : forall y, In y (all_tps ts) -> exists a, In y (holds p a)).
+  { intros [t q] Hy. assert (Ha : In (t, q) (assigned p)).
+    { apply V6; [now apply all_tps_In in Hy|]. exists m. apply in_map_iff in Hm as [mm [M1 M2]]. exists mm. split; [assumption|]. split; [assumption|].
+      apply all_tps_In in Hy as [ps [H1 _]]. apply (HallT mm t ps); [now right | assumption]. }
+    unfold assigned in Ha. apply in_map_iff in Ha as [[[a t'] q'] [Eq Ha]]. simpl in Eq. injection Eq as -> ->. exists a. now apply holds_In. }
+  destruct (sticky_prepare o ms' ts) as [pr|] eqn:Ep.
+  2:{ exfalso. unfold sticky_plan, sticky_plan_full in E. rewrite Ep in E. discriminate. }
+  pose proof (sticky_prepare_ok o ms' ts pr Wm' Wt Ep) as [C1 C2 NW NF DJ FP KY ID RI PA PALL PS].
+  unfold sticky_plan, sticky_plan_full in E. rewrite Ep in E.
+  rewrite sticky_prepare_stage1 in Ep.
+  destruct (stage1 o ms' ts) as [[[[[[ca0 prev] c2p] p2c] ca1] k]|] eqn:Est; [|discriminate].
+  destruct (stage1_exact o cur ts p g ca0 prev c2p p2c ca1 k Wc Wt V5 Est) as [X1 [X2 [X3 [X4 X5]]]].
+  destruct (stage1_keep_inv o ms' ts ca0 prev c2p p2c ca1 k Wm' Wt Est) as [F1 [F2 [F3 [F4 [KI [O2 [F8 FX]]]]]]].
+  destruct KI as [K1 K2 K3 K4 K5 K6].
+  destruct FX as [PX CX].
+  { intros mm Hmm. apply potl_NoDup; [assumption|]. unfold ms' in Hmm. apply in_map_iff in Hmm as [m0 [<- H0]]. cbn [report m_topics]. now apply Hnd. }
+  set (K := akeys (k_ca k)) in *.
+  (* kept lists *)
+  assert (Kx : forall a y, In y (holds p a) -> In y (ca_get (k_ca k) a)).
+  { intros a y Hy. destruct (Hheld a y Hy) as [Ha Hya]. apply X2; auto. }
+  assert (KN : ca_get (k_ca k) N = []).
+  { destruct (ca_get (k_ca k) N) as [|y r] eqn:Ek; [reflexivity|]. exfalso. assert (H : In y (holds p N)) by (apply X1; rewrite Ek; now left). now rewrite HN0 in H. }
+  assert (InP2c : forall a y, In y (ca_get (k_ca k) a) -> In y (all_tps ts)).
+  { intros a y Hy. apply X1 in Hy. now apply (Hheld a y). }
+  (* nothing assignable is waiting *)
+  assert (Una0 : forall y, In y (k_unassigned k ++ order_by tp_eqb (o_plan_unvisited o) (k_unvisited k)) -> p2c_get p2c y = []).
+  { intros y Hy. destruct (p2c_get p2c y) as [|m0 l0] eqn:Eg; [reflexivity|]. exfalso.
+    assert (Hp0 : pot ms' ts m0 y) by (apply F4; rewrite Eg; now left).
+    destruct (Held y (proj1 Hp0)) as [a Ha]. pose proof (Kx a y Ha) as Hk.
+    apply in_app_or in Hy as [Hy|Hy].
+    - apply NoDup_app_inv in K2 as [_ [_ D]]. apply (D y); [eapply ca_get_lists; eassumption | assumption].
+    - apply (order_by_spec tp_eqb tp_spec (o_plan_unvisited o) (k_unvisited k) K3) in Hy.
+      destruct (K4 y Hy) as [_ [_ A3]]. apply (A3 a); [|assumption]. apply O2. rewrite <- K1. apply X3. apply IdsC. now apply (Hheld a y). }
+  injection Ep as Ep. unfold balance_prepare in Ep. rewrite (assign_all_skip c2p p2c _ (k_ca k) (k_cpc k) (sort_members (k_ca k)) Una0) in Ep.
+  destruct (split_fixed c2p p2c (akeys c2p) (k_ca k) []) as [ca2 fixed] eqn:Esp.
+  subst pr. cbn [pr_prev pr_c2p pr_p2c pr_parts pr_s0 pr_fixed pr_initializing s_ca s_cpc s_mov s_sorted s_picks] in *.
+  set (s0 := {| s_ca := ca2; s_cpc := k_cpc k; s_mov := []; s_sorted := match fixed with [] => sort_members (k_ca k) | _ :: _ => sort_members ca2 end; s_picks := o_picks o |}) in *.
+  set (W := akeys ca2) in *.
+  (* who takes part *)
+  assert (PN : pot ms' ts N x) by (apply Hpot'; apply PotAll; [now left | assumption]).
+  assert (Two : forall a y, In y (ca_get (k_ca k) a) -> 2 <= len (p2c_get p2c y)).
+  { intros a y Hy. assert (Ha : a <> N) by (intros ->; now rewrite KN in Hy).
+    assert (Hyk : In a K) by (apply ca_get_nonempty_key; intro E0; now rewrite E0 in Hy).
+    apply (two_distinct_len _ a N); [| |assumption].
+    - apply F4. apply Hpot'. apply PotAll; [now apply X3 | eapply InP2c; eassumption].
+    - apply F4. apply Hpot'. apply PotAll; [now left | eapply InP2c; eassumption]. }
+  assert (Part : forall a, In a K -> (a = N \/ ca_get (k_ca k) a <> []) -> In a W).
+  { intros a Ha Hc. eapply split_fixed_stays; [exact Esp | exact Ha|]. unfold member_can_participate.
+    destruct (len (ca_get (k_ca k) a) <? len (ca_get c2p a)) eqn:El; [reflexivity|]. apply Z.ltb_ge in El.
+    destruct Hc as [->|Hc].
+    - exfalso. rewrite KN in El. apply F3 in PN. destruct (ca_get c2p N); [contradiction | unfold len in El; simpl in El; lia].
+    - destruct (ca_get (k_ca k) a) as [|y r] eqn:Ek; [congruence|]. cbn [existsb]. unfold part_can_participate at 1.
+      rewrite (proj2 (Z.leb_le _ _) (Two a y ltac:(rewrite Ek; now left))). reflexivity. }
+  assert (HNK : In N K) by (apply X3; now left).
+  assert (HNW : In N W) by (apply Part; [assumption | now left]).
+  assert (Wget : forall a, In a W -> ca_get ca2 a = ca_get (k_ca k) a /\ In a K).
+  { intros a Ha. destruct (split_fixed_working _ _ _ _ _ _ _ Esp a Ha) as [H1 H2]. now split. }
+  assert (Hxk : In x (ca_get (k_ca k) m)) by now apply Kx.
+  assert (HmW : In m W).
+  { apply Part; [apply X3; now apply IdsC | right; intro E0; now rewrite E0 in Hxk]. }
+  (* sizes of the old members' lists *)
+  assert (Hidm : identical_subscriptions ms) by (intros m1 m2 t H1 H2; apply Hid; now right).
+  assert (Sz : forall a, In a (map m_id ms) -> len (ca_get (k_ca k) a) = total p a).
+  { intros a Ha. unfold total, len. f_equal. apply Permutation_length. apply NoDup_Permutation; [apply X5 | now apply holds_NoDup|].
+    intro y. split; [apply X1 | apply Kx]. }
+  assert (OldW : forall a, In a W -> a <> N -> In a (map m_id ms)).
+  { intros a Ha Na. destruct (Wget a Ha) as [_ Hk]. apply X3 in Hk. destruct Hk as [Hk|Hk]; [exfalso; apply Na; symmetry; exact Hk | assumption]. }
+  (* the list of reassignable partitions *)
+  set (R0 := filter_assigned (k_ca k) p2c).
+  assert (R0get : forall a, ca_get R0 a = ca_get (k_ca k) a).
+  { intro a. unfold R0. rewrite ca_get_filter_assigned. apply forallb_filter_id. apply forallb_forall. intros y Hy.
+    destruct (key_aget tp_eqb tp_spec y p2c) as [v Ev]; [rewrite F2; eapply InP2c; eassumption | now rewrite Ev]. }
+  assert (R0k : akeys R0 = K) by (unfold R0; apply filter_assigned_keys).
+  destruct (pq_loop_rr (total_len R0) prev R0 []) as [out [Eout RR]]; [now rewrite R0k | | reflexivity|].
+  { intros a l Hl. rewrite <- (entry_ca_get a l R0) by (rewrite ?R0k; assumption). rewrite R0get. apply X5. }
+  simpl in Eout.
+  pose proof (rr_seq_perm R0 out RR ltac:(now rewrite R0k)) as Pout.
+  assert (Lout : forall y, In y out <-> exists a, In y (ca_get (k_ca k) a)).
+  { intro y. split.
+    - intro H. apply (Permutation_in y Pout) in H. apply lists_ca_get in H; [|now rewrite R0k]. destruct H as [a [_ H]]. exists a. now rewrite <- R0get.
+    - intros [a H]. apply (Permutation_in y (Permutation_sym Pout)). rewrite <- R0get in H. eapply ca_get_lists; eassumption. }
+  assert (Fresh : match ca0 with [] => true | _ :: _ => false end = false).
+  { destruct ca0; [|reflexivity]. exfalso.
+    assert (Hsub : In x (ca_get ca1 m)).
+    { unfold stage1 in Est. destruct (prepopulate o ms') as [[c0 pv]|]; [|discriminate]. destruct (pot_members ts ms' [] (p2c_init (all_tps ts)) c0) as [[a1 a2] a3].
+      injection Est as _ _ _ _ E5 E6. rewrite <- E6 in Hxk. apply keep_members_sub in Hxk. cbn [k_ca] in Hxk. now rewrite <- E5. }
+    rewrite F8 in Hsub. contradiction. }
+  assert (Ident : subscriptions_identical o p2c c2p = true).
+  { unfold subscriptions_identical. apply andb_true_iff. split.
+    - apply (ident_loop_same_set str_eqb str_spec (map m_id ms')); [|now left].
+      intros v Hv. apply in_map_iff in Hv as [y [<- Hy]].
+      apply (order_by_spec tp_eqb tp_spec (o_ident_parts o) (akeys p2c)) in Hy; [|rewrite F2; now apply all_tps_NoDup]. rewrite F2 in Hy.
+      rewrite PX. rewrite (forallb_filter_id _ ms'); [split; [exact Wm' | tauto]|].
+      apply forallb_forall. intros mm Hmm. apply (mem_In tp_eqb tp_spec). apply potl_In; [assumption|]. split; [assumption|].
+      unfold ms' in Hmm. apply in_map_iff in Hmm as [m0 [<- H0]]. cbn [report m_topics]. apply all_tps_In in Hy as [ps [H1 _]]. eapply HallT; eassumption.
+    - apply (ident_loop_same_set tp_eqb tp_spec (all_tps ts)); [|now left].
+      intros v Hv. apply in_map_iff in Hv as [a [<- Ha]].
+      apply (order_by_spec str_eqb str_spec (o_ident_members o) (akeys c2p)) in Ha; [|rewrite F1; exact Wm']. rewrite F1 in Ha.
+      apply in_map_iff in Ha as [mm [<- Hmm]]. rewrite (CX mm Hmm). split.
+      + apply potl_NoDup; [assumption|]. unfold ms' in Hmm. apply in_map_iff in Hmm as [m0 [<- H0]]. cbn [report m_topics]. now apply Hnd.
+      + intro y. rewrite (potl_In ts Wt). split; [tauto|]. intro Hy. split; [assumption|].
+        unfold ms' in Hmm. apply in_map_iff in Hmm as [m0 [<- H0]]. cbn [report m_topics]. apply all_tps_In in Hy as [ps [H1 _]]. eapply HallT; eassumption. }
+  assert (Eparts : drop_nonparticipating p2c (akeys p2c) (sort_partitions o (k_ca k) prev match ca0 with [] => true | _ :: _ => false end p2c c2p) = out).
+  { pose proof (sort_partitions_ok o (k_ca k) prev match ca0 with [] => true | _ :: _ => false end p2c c2p X4) as SP.
+    destruct SP as [SP1 SP2]; [now apply NoDup_app_inv in K2 | rewrite F2; now apply all_tps_NoDup|].
+    unfold sort_partitions in *. rewrite Fresh, Ident in *. cbn [negb andb] in *. fold R0 in SP1, SP2 |- *. rewrite Eout in *.
+    apply drop_nonparticipating_app; [exact SP1 | |].
+    - intros y Hy. apply Lout in Hy as [a Ha]. unfold part_can_participate. apply Z.leb_le. eapply Two; eassumption.
+    - intros y Hy. split; [apply SP2; apply in_or_app; now right|].
+      unfold part_can_participate. destruct (p2c_get p2c y) as [|m0 l0] eqn:Eg; [reflexivity|]. exfalso.
+      assert (Hp0 : pot ms' ts m0 y) by (apply F4; rewrite Eg; now left).
+      destruct (Held y (proj1 Hp0)) as [a Ha]. assert (Hyo : In y out) by (apply Lout; exists a; now apply Kx).
+      apply NoDup_app_inv in SP1 as [_ [_ D]]. now apply (D y). }
+  rewrite Eparts in *.
+  (* the pass *)
+  assert (I0 : pinv ms' ts W fixed N s0 R0).
+  { constructor.
+    - split; assumption.
+    - intros a Ha Na. left. cbn [s_ca s0]. rewrite R0get. now rewrite (proj1 (Wget a Ha)).
+    - intros a b Ha Hb Na Nb. cbn [s_ca s0]. rewrite (proj1 (Wget a Ha)), (proj1 (Wget b Hb)).
+      rewrite (Sz a (OldW a Ha Na)), (Sz b (OldW b Hb Nb)). eapply identical_totals; eauto.
+    - intros a Ha Na. cbn [s_ca s0]. rewrite (proj1 (Wget N HNW)), KN. apply len_nonneg.
+    - intros a y Hy. rewrite R0get in Hy. assert (Na : a <> N) by (intros ->; now rewrite KN in Hy).
+      assert (HaW : In a W) by (apply Part; [apply ca_get_nonempty_key; intro E0; now rewrite E0 in Hy | right; intro E0; now rewrite E0 in Hy]).
+      cbn [s_ca s0]. rewrite (proj1 (Wget a HaW)). auto.
+    - intros q pr [].
+    - now rewrite R0k.
+    - intro a. rewrite R0get. apply X5. }
+  assert (HallW : forall y m0, pot ms' ts m0 y -> forall a, In a W -> pot ms' ts a y).
+  { intros y m0 H0 a Ha. apply Hpot'. apply PotAll; [apply X3; now apply Wget | apply H0]. }
+  unfold run_perform in E. cbn [pr_prev pr_c2p pr_p2c pr_parts pr_s0] in E. cbn [perform] in E.
+  destruct (reassign_pass true prev c2p p2c out s0 false) as [[s1 m1] e1] eqn:Epass.
+  destruct (join_pass ms' ts c2p p2c C1 C2 W fixed NW FP KY N HNW HallW prev R0 out RR s0 false s1 m1 e1 I0 Epass) as [-> [OT [R' [I1 B1]]]].
+  assert (Bal1 : is_balanced (s_ca s1) c2p = Some true).
+  { destruct B1 as [B1|B1]; [assumption|]. pose proof I1 as [[RI1 _] _ _ _ _ _ _ _].
+    apply (within1_balanced c2p W N HNW); [apply (ri_keys ms' ts W fixed s1 RI1) | eapply exhausted_within1; eassumption]. }
+  match type of E with context [sticky_finish ?r _] => set (PR := r) in E end.
+  assert (E' : exists pf, p_res (sticky_finish PR (s1, pf, PerfDone)) = SOk p').
+  { destruct m1.
+    - destruct fuel as [|fuel]; [cbn [perform] in E; unfold sticky_finish, balance_finish in E; cbn [b_end p_res] in E; discriminate|].
+      cbn [perform] in E. rewrite (pass_balanced_noop true prev c2p p2c out s1 false Bal1) in E. now exists true.
+    - now exists false. }
+  destruct E' as [pf E']. unfold sticky_finish, balance_finish in E'. cbn [b_ca b_end b_reverted b_performed p_res] in E'.
+  unfold PR in E'. cbn [pr_fixed pr_s0] in E'. injection E' as E'.
+  pose proof I1 as [[RI1 _] _ _ _ _ _ _ _].
+  pose proof (ri_keys ms' ts W fixed s1 RI1) as Ks1.
+  assert (FinH : forall a y, In a W -> In y (ca_get (s_ca s1) a) -> In y (holds p' a)).
+  { intros a y Ha Hy. rewrite <- E'.
+    match goal with |- context [if ?c then _ else _] => destruct c end.
+    - apply assemble_holds; [rewrite Ks1; exact NW | exact Hy].
+    - destruct (add_back_spec fixed (s_ca s1) NF) as [B2 _]; [now rewrite Ks1 | rewrite Ks1; exact NW|].
+      apply assemble_holds; [exact B2|]. rewrite add_back_get; [|assumption | now rewrite Ks1].
+      rewrite (proj2 (mem_false str_eqb str_spec a (akeys fixed))); [exact Hy|]. intro H. now apply (DJ a H). }
+  assert (Hx0 : In x (ca_get (s_ca s0) m)) by (cbn [s_ca s0]; now rewrite (proj1 (Wget m HmW))).
+  destruct (OT m x Hx0) as [H|H]; [left | right]; now apply FinH.
+Qed.
+
+(* ---- every returned plan gives a partition to one member only, and only to members of the group (also in the
+   revert branch of balance(): this part of validity does not depend on the fixed members) ---- *)
+Lemma sticky_plan_functional : forall fuel o ms ts p', wf_members ms -> wf_topics ts ->
+  sticky_plan fuel true o ms ts = SOk p' ->
+  (forall a b y, In y (holds p' a) -> In y (holds p' b) -> a = b) /\
+  (forall a y, In y (holds p' a) -> In a (map m_id ms)).
+Proof.
+  intros fuel o ms ts p' Wm Wt E. unfold sticky_plan, sticky_plan_full in E.
+  destruct (sticky_prepare o ms ts) as [pr|] eqn:Ep; [|discriminate].
+  destruct (sticky_prepare_ok o ms ts pr Wm Wt Ep) as [C1 C2 NW NF DJ FP KY ID RI PA PALL PS].
+  unfold run_perform in E.
+  destruct (perform fuel true (pr_prev pr) (pr_c2p pr) (pr_p2c pr) (pr_parts pr) (pr_s0 pr) false) as [[s' pf] e] eqn:Er.
+  pose proof (perform_inv ms ts (pr_c2p pr) (pr_p2c pr) C1 C2 _ (pr_fixed pr) NW NF DJ FP KY (pr_prev pr) (pr_parts pr) fuel _ _ _ _ _ Er RI) as RI'.
+  unfold sticky_finish, balance_finish in E. cbn [b_ca b_end b_reverted b_performed p_res] in E.
+  destruct e; try discriminate. injection E as E.
+  pose proof (ri_keys _ _ _ _ _ RI') as Ks. pose proof (ri_lists _ _ _ _ _ RI') as NL.
+  assert (NKs : NoDup (akeys (s_ca s'))) by (rewrite Ks; exact NW).
+  match type of E with assemble (if ?c then _ else _) [] = _ => destruct c end; subst p'.
+  - split.
+    + intros a b y Ha Hb. apply (assemble_holds _ _ _ NKs) in Ha. apply (assemble_holds _ _ _ NKs) in Hb.
+      eapply (owner_unique (s_ca s') y); eauto. now apply NoDup_app_inv in NL.
+    + intros a y Ha. apply (assemble_holds _ _ _ NKs) in Ha. apply ID. left. rewrite <- Ks. apply ca_get_nonempty_key. intro E0. now rewrite E0 in Ha.
+  - destruct (add_back_spec (pr_fixed pr) (s_ca s') NF) as [B1 [B2 [B3 B4]]]; [now rewrite Ks | assumption|].
+    split.
+    + intros a b y Ha Hb. apply (assemble_holds _ _ _ B1) in Ha. apply (assemble_holds _ _ _ B1) in Hb.
+      eapply (owner_unique _ y); eauto. eapply Permutation_NoDup; [symmetry; exact B3 | exact NL].
+    + intros a y Ha. apply (assemble_holds _ _ _ B1) in Ha. apply ID. rewrite <- Ks. apply B2. apply ca_get_nonempty_key. intro E0. now rewrite E0 in Ha.
+Qed.
+
+(* ---- no pairwise swap within a topic across an unchanged replan, a leave or a join ---- *)
+Theorem sticky_no_pair_swap_unchanged : forall fuel o ms ts p g p',
+  wf_members ms -> wf_topics ts -> valid_plan ms ts p -> kafka_balanced ms p ->
+  sticky_plan fuel true o (map (report p g) ms) ts = SOk p' -> ~ pair_swap p p'.
+Proof.
+  intros fuel o ms ts p g p' Wm Wt V KB E [t [q1 [q2 [a [b [Nab [H1 [H2 _]]]]]]]].
+  destruct fuel as [|fuel]; [eapply sticky_plan_fuel0; eassumption|].
+  destruct (sticky_fixed_point fuel o ms ts p g Wm Wt V KB) as [p'' [E'' SO]]. rewrite E'' in E. injection E as <-.
+  apply SO in H2. apply Nab. eapply holds_unique; eauto. apply (vp_once ms ts p V).
+Qed.
+
+Theorem sticky_no_pair_swap_leave : forall fuel o ms ts p g leaver p',
+  wf_members ms -> wf_topics ts -> identical_subscriptions ms -> valid_plan ms ts p -> kafka_balanced ms p ->
+  sticky_plan fuel true o (map (report p g) (remaining ms leaver)) ts = SOk p' -> ~ pair_swap p p'.
+Proof.
+  intros fuel o ms ts p g leaver p' Wm Wt Hid V KB E [t [q1 [q2 [a [b [Nab [H1 [H2 [H3 H4]]]]]]]]].
+  assert (Wr : wf_members (map (report p g) (remaining ms leaver))).
+  { unfold wf_members. rewrite report_ids. unfold remaining. now apply NoDup_map_filter. }
+  destruct (sticky_plan_functional fuel o _ ts p' Wr Wt E) as [F1 F2].
+  destruct (eq_dec_of str_eqb str_spec a leaver) as [->|Na].
+  - apply F2 in H4. rewrite report_ids in H4. apply in_map_iff in H4 as [mm [E1 E2]]. unfold remaining in E2. apply filter_In in E2 as [_ E2].
+    apply negb_true_iff in E2. apply str_eqb_neq in E2. congruence.
+  - pose proof (sticky_leave_keeps fuel o ms ts p g leaver p' Wm Wt Hid V KB E a (t, q1) Na H1) as K. apply Nab. eapply F1; eassumption.
+Qed.
+
+Theorem sticky_no_pair_swap_join : forall fuel o ms ts p g newm p',
+  wf_members (newm :: ms) -> wf_topics ts -> identical_subscriptions (newm :: ms) ->
+  (forall mm, In mm (newm :: ms) -> NoDup (m_topics mm)) ->
+  (forall t ps, In (t, ps) ts -> In t (m_topics newm)) ->
+  valid_plan ms ts p -> kafka_balanced ms p ->
+  sticky_plan fuel true o (map (report p g) (newm :: ms)) ts = SOk p' -> ~ pair_swap p p'.
+Proof.
+  intros fuel o ms ts p g newm p' Wc Wt Hid Hnd Htop V KB E [t [q1 [q2 [a [b [Nab [H1 [H2 [H3 H4]]]]]]]]].
+  assert (Wr : wf_members (map (report p g) (newm :: ms))) by (unfold wf_members; now rewrite report_ids).
+  destruct (sticky_plan_functional fuel o _ ts p' Wr Wt E) as [F1 _].
+  destruct (sticky_join_no_shuffle fuel o ms ts p g newm p' Wc Wt Hid Hnd Htop V KB E a (t, q1) H1) as [K|K].
+  - apply Nab. eapply F1; eassumption.
+  - assert (Eb : b = m_id newm) by (eapply F1; eassumption). subst b.
+    apply holds_In in H3. apply triples_key in H3. apply (vp_members ms ts p V) in H3.
+    unfold wf_members in Wc. simpl in Wc. inversion Wc. contradiction.
+Qed.
